@@ -2,6 +2,7 @@ mod actors;
 mod algebra;
 mod graphs;
 mod hooks;
+mod market;
 mod testers;
 
 fn arg(args: &[String], name: &str) -> Option<String> {
@@ -23,6 +24,7 @@ fn main() {
             arg(&args, "--m").and_then(|s| s.parse().ok()).unwrap_or(2),
             arg(&args, "--seed").and_then(|s| s.parse().ok()).unwrap_or(1),
         ),
+        "market" => market::main_market(&inp, &out),
         "testers" => testers::main_testers(&inp, &out),
         "refobjs" => testers::main_refobjs(
             &out,
